@@ -1,4 +1,5 @@
 import AlgopyVerif.Proofs.Prefix
+import AlgopyVerif.Proofs.SpecialFns
 /-!
 # C12 — low-order coefficients do not depend on the truncation degree
 
@@ -13,9 +14,11 @@ arbitrary field `K` (so it covers real and complex coefficients).  UTPM-level fu
 are these kernels mapped over `(p, idx)` (`Model/Utpm.lean: mapS1`), the tie of which to
 the code is the C12 correspondence run.
 
-Not yet proved here (model exists, tied by correspondence only): `slowGenericS`
-(`_eval_slow_generic`: gammaln, psi, polygamma, hyperu) and `odeS` (`dawsn`), which are
-folds rather than `build` recurrences; matrix kernels.
+The two fold-based kernels, `slowGenericS` (`_eval_slow_generic`: gammaln, psi, polygamma, hyperu)
+and `dawsnS` (`_dawsn` through the generic ODE solver), are proved over ℝ, for every list of
+derivative leaves resp. every leaf value, as a corollary of the analytic layer of C01: the output is
+the jet of a function that does not depend on `D` (`slow_generic_prefix`, `dawsn_prefix`).
+Not proved: these two over other fields; matrix kernels.
 -/
 namespace AV.C12
 variable {K : Type} [Field K]
@@ -124,6 +127,17 @@ theorem erfi_prefix (c e0 f0 : K) (x : List K) (m : Nat) (h : m ≤ x.length) :
   unfold erfiS
   rw [blackWhiteS_take _ _ _ _ h, scaleS_take, expS_take _ _ _ (by simpa [squareS] using h),
     squareS_take _ _ h]
+
+/-- `_eval_slow_generic` over ℝ: for every list of derivative leaves, the first `D'` coefficients do
+not depend on `D` -/
+theorem slow_generic_prefix (derivs x : List ℝ) (m : Nat) (hm : m ≤ x.length) (d : Nat) (hd : d < m) :
+    co (slowGenericS derivs (x.take m)) d = co (slowGenericS derivs x) d :=
+  slowGenericS_take_co derivs x m hm d hd
+
+/-- `_dawsn` over ℝ, for every leaf value -/
+theorem dawsn_prefix (v0 : ℝ) (x : List ℝ) (m : Nat) (hm : m ≤ x.length) (d : Nat) (hd : d < m) :
+    co (dawsnS v0 (x.take m)) d = co (dawsnS v0 x) d :=
+  dawsnS_take_co v0 x m hm d hd
 
 /-- `D = 1` reproduces the plain function value (the leaf) -/
 theorem exp_D1 (y0 x0 : K) : expS y0 [x0] = [y0] := by
